@@ -245,11 +245,22 @@ func c08(c *wk.Ctx) {
 		if len(p) == 0 && rng.Intn(2) == 0 {
 			p = []byte{1}
 		}
+		chunk := 64
+		var fields []rc.Field
+		if rng.Intn(6) == 0 {
+			// a payload beyond the sizes at which a reader may change strategy (64 KiB .. 1 MiB): cut around
+			// every such size, at both ends and at random positions
+			p = make([]byte, []int{65537, 66000, 70001, 100000, 131073, 200003, 262145, 300001, 1<<20 + 5}[rng.Intn(9)]+rng.Intn(3))
+			rng.Read(p)
+			chunk = 8192
+			fields = []rc.Field{{Off: 24, Val: uint32(len(p)), Kind: "len"}}
+			c.Count("messages_with_a_payload_beyond_64_KiB", 1)
+		}
 		enc := rc.Frame(h, p)
-		cutAll(c, "message", i, "Message.Read", enc, cuts(rng, len(enc), nil, exh), func(b []byte) error {
+		cutAll(c, "message", i, "Message.Read", enc, cuts(rng, len(enc), fields, exh), func(b []byte) error {
 			var m qnet.Message
 			// alternate plain delivery and final-chunk-with-EOF delivery
-			return m.Read(&fragReader{data: b, plan: planRandom(rng, 64), eofWithData: i%2 == 0})
+			return m.Read(&fragReader{data: b, plan: planRandom(rng, chunk), eofWithData: i%2 == 0})
 		}, map[string]interface{}{"signature": "message", "len": len(enc)})
 		if c.WantSample() && i%100 == 0 {
 			c.Sample(map[string]interface{}{"stream": "message", "frame_len": len(enc)})
